@@ -14,7 +14,7 @@ Section Tie.
     req mkind (@mlist_ F) (@sgeom F) r1 r2 -> lseg_of r1 = lseg_of r2.
   Proof.
     destruct r1 as [g1 m1], r2 as [g2 m2]. intros [Hg Hm]. cbn [fst snd] in Hg, Hm. subst g2.
-    unfold lseg_of. rewrite (Hm KTemp), (Hm KComp), (Hm KVel). reflexivity.
+    unfold lseg_of. rewrite (Hm KTemp), (Hm KComp), (Hm KVel), (Hm KGrains). reflexivity.
   Qed.
 
   Lemma map_lseg_of_ext l1 l2 : Forall2 (req mkind (@mlist_ F) (@sgeom F)) l1 l2 -> map lseg_of l1 = map lseg_of l2.
